@@ -93,7 +93,26 @@ def rule_s(F):
                                 covered.add(vn)
                                 if any(y.get("k") == "call" and any(c.endswith("Error::custom") for c in hir_callee(y)) for y in hir_walk(a["body"])):
                                     refused.append(vn)
+            # tagged representation: every arm announces its variant (serialize_*_variant); `#[serde(untagged)]` makes the arms
+            # serialize the payload alone, which only self-describing formats can read back
+            untagged = []
+            for x in hir_walk(f.hir["body"]):
+                if x.get("k") == "match" and not x.get("source", "").startswith("TryDesugar"):
+                    for a in x["arms"]:
+                        vns = [n.rsplit("::", 1)[-1] for n, _s, _p in pat_variants(a["pat"]) if n.rsplit("::", 1)[-1] in variants]
+                        if not vns:
+                            continue
+                        calls = [c for y in hir_walk(a["body"]) if y.get("k") in ("call", "mcall") for c in hir_callee(y)]
+                        if not any("_variant" in c.rsplit("::", 1)[-1] for c in calls):
+                            untagged += vns
             key = "C11/S/%s/variants-serialized" % tname
+            if untagged and not (missing_placeholder := None):
+                res.append(bad("C11.S", "C11/S/%s/variants-tagged" % tname, "%s:%s" % (adt["file"], adt["line"]),
+                               "enum %s is serialized without variant tags (%s): the derived Deserialize has to guess the variant from the "
+                               "data, which formats that are not self-describing (bincode) cannot do - a saved value no longer loads"
+                               % (tname, sorted(set(untagged)))))
+            else:
+                res.append(ok("C11.S", "C11/S/%s/variants-tagged" % tname, "%s:%s" % (adt["file"], adt["line"]), "every variant is written with its tag"))
             missing = [v for v in variants if v not in covered]
             if missing or refused:
                 res.append(bad("C11.S", key, "%s:%s" % (adt["file"], adt["line"]), "enum %s: variants not serializable: %s" % (tname, missing + refused)))
